@@ -91,10 +91,18 @@ impl Report {
             self.outcomes.insert(hash64(t));
         }
     }
+    /// keeps the MAX_VIOLATIONS_KEPT *shortest* violating cases (simplest counterexamples first)
     pub fn violation(&mut self, v: Violation) {
         self.violations_total += 1;
+        self.keep(v);
+    }
+    fn keep(&mut self, v: Violation) {
         if self.violations.len() < MAX_VIOLATIONS_KEPT {
             self.violations.push(v);
+        } else if let Some((i, longest)) = self.violations.iter().enumerate().max_by_key(|(_, x)| x.case.len()) {
+            if v.case.len() < longest.case.len() {
+                self.violations[i] = v;
+            }
         }
     }
     pub fn eng(&mut self, name: &str, states: u64, transitions: u64) {
@@ -129,9 +137,7 @@ impl Report {
         }
         self.violations_total += o.violations_total;
         for v in o.violations {
-            if self.violations.len() < MAX_VIOLATIONS_KEPT {
-                self.violations.push(v);
-            }
+            self.keep(v);
         }
         self.notes.extend(o.notes);
         self.caps_hit.extend(o.caps_hit);
